@@ -71,12 +71,53 @@ def _storage_lit(st):
     return "(StDict %s)" % clist([cpair(_okey_lit(k), cstr(v)) for k, v in st["dict"]])
 
 
+def _json_lit(j):
+    if j is None:
+        return "JNull"
+    if isinstance(j, bool):
+        return "(JBool %s)" % cbool(j)
+    if isinstance(j, int):
+        return "(JInt (%d)%%Z)" % j
+    if isinstance(j, str):
+        return "(JStr %s)" % cstr(j)
+    if isinstance(j, list):
+        return "(JArr %s)" % clist([_json_lit(x) for x in j])
+    return "(JObj %s)" % clist([cpair(cstr(k), _json_lit(v)) for k, v in j.items()])
+
+
+def _mut_lit(m):
+    if not m:
+        return "MNone"
+    if m[0] == "del":
+        return "(MDel %s)" % cstr(m[1])
+    if m[0] == "set":
+        return "(MSet %s %s)" % (cstr(m[1]), _json_lit(m[2]))
+    return "(MSetIn %s %s %s)" % (cstr(m[1]), cstr(m[2]), _json_lit(m[3]))
+
+
+def apply_mutation(folder, m):
+    """Edit run_info.json the way a user (or a partial write) could: json.load, one edit, json.dump."""
+    if not m:
+        return
+    path = os.path.join(folder, "run_info.json")
+    with open(path) as f:
+        data = json.load(f)
+    if m[0] == "del":
+        data.pop(m[1], None)
+    elif m[0] == "set":
+        data[m[1]] = m[2]
+    elif isinstance(data.get(m[1]), dict):
+        data[m[1]][m[2]] = m[3]
+    with open(path, "w") as f:
+        json.dump(data, f, indent=4)
+
+
 def emit_case(c) -> str:
     return ("{| c_funcs := %s; c_inputs := %s; c_internal := %s; c_user_int := %s; c_func_int := %s; c_storage := %s; "
-            "c_persist := %s; c_fresh := %s; c_xr := %s |}") % (
+            "c_persist := %s; c_fresh := %s; c_xr := %s; c_mut := %s |}") % (
         clist([mapgen.func_lit(f) for f in c["funcs"]]), mapgen._env(c["inputs"]), mapgen.shapes_lit(c.get("internal")),
         clist([cstr(x) for x in c.get("user_int", [])]), clist([cstr(x) for x in c.get("func_int", [])]),
-        _storage_lit(c["st"]), cbool(c.get("persist", True)), cbool(c.get("fresh", False)), cstr(c.get("xr", "ok")))
+        _storage_lit(c["st"]), cbool(c.get("persist", True)), cbool(c.get("fresh", False)), cstr(c.get("xr", "ok")), _mut_lit(c.get("mut")))
 
 
 # ------------------------------------------------------------------ building / running the real pipeline
@@ -208,6 +249,8 @@ def worker_run(items):
     for c, folder in items:
         head, keep = _parent_run(c, folder)
         tail = None
+        if not isinstance(head, Err):
+            apply_mutation(folder, c.get("mut"))
         if not isinstance(head, Err) and not c.get("fresh"):
             with contextlib.redirect_stdout(io.StringIO()):
                 tail = c04_reload.two_loads(folder, _out_names(c))   # results (and their managers) still alive
@@ -308,6 +351,9 @@ def run_impl(c):
 
 
 # ------------------------------------------------------------------ generator
+FILTER_INTERNAL_FIRST = False   # True while the repo lacks the normalize_key(for_dump=True) repair (repo commit d50699d)
+
+
 def _internal_after_mapped(c):
     """Work-around for the known normalize_key(for_dump=True) defect (C01/C07): internal axes only after all mapped axes."""
     for fd in c["funcs"]:
@@ -373,7 +419,7 @@ MAX_MANAGER_COST = 6
 def gen_case(rng):
     while True:
         c = mapgen.gen_request(rng)
-        if mapgen.request_size(c) > 24 or not _internal_after_mapped(c):
+        if mapgen.request_size(c) > 24 or (FILTER_INTERNAL_FIRST and not _internal_after_mapped(c)):
             continue
         c.pop("storage", None)
         c["func_int"] = [fd["name"] for fd in c["funcs"] if len(fd.get("int") or []) == 1 and rng.random() < 0.5]
@@ -390,9 +436,43 @@ def gen_case(rng):
         return c
 
 
+FIELDS = ["all_output_names", "shapes", "internal_shapes", "shape_masks", "run_folder", "mapspecs_as_strings", "storage",
+          "pipefunc_version", "input_paths", "defaults_path"]
+
+
+def gen_mutation(rng, c):
+    """One edit of run_info.json whose effect on RunInfo.load the model defines (no 'outside the schema' documents)."""
+    kind = rng.choice(["del", "del", "bad_dict", "bad_names", "bad_path", "extra", "version", "storage", "entry", "internal"])
+    if kind == "del":
+        return ["del", rng.choice(FIELDS)]
+    if kind == "bad_dict":
+        return ["set", rng.choice(["shapes", "shape_masks", "input_paths"]), rng.choice([None, 1, "s", [1]])]
+    if kind == "internal":
+        return ["set", "internal_shapes", rng.choice([None, 1, "s", [1]])]
+    if kind == "bad_names":
+        return ["set", "all_output_names", rng.choice([None, 1, [["a"]]])]
+    if kind == "bad_path":
+        return ["set", rng.choice(["run_folder", "defaults_path"]), rng.choice([None, 1, [1]])]
+    if kind == "extra":
+        return ["set", "not_a_field", 1]
+    if kind == "version":
+        return ["set", "pipefunc_version", "0.0.0"]
+    if kind == "storage":
+        return ["set", "storage", rng.choice(STORAGES + ["bogus"])]
+    mapped = [fd for fd in c["funcs"] if fd.get("spec")]
+    if not mapped:
+        return ["del", rng.choice(FIELDS)]
+    fd = rng.choice(mapped)
+    key = ",".join(fd["outs"])
+    return ["setin", rng.choice(["shapes", "shape_masks"]), key, rng.choice([None, 3])]
+
+
 def generate(rng, tier, mult):
     n = (60 if tier == "quick" else 1500) * mult
     out = [gen_case(rng) for _ in range(n)]
+    for c in out[: max(1, n // 5)]:           # negative stream: the folder is edited before the reload
+        c["mut"] = gen_mutation(rng, c)
+    rng.shuffle(out)
     _PENDING.clear()
     for c in out:
         _PENDING[_key(c)] = c
@@ -426,7 +506,9 @@ def _kinds(c):
 def distribution(c):
     return {"storage": _kinds(c), "fresh": bool(c.get("fresh")), "persist": bool(c.get("persist", True)),
             "xr_ref": c.get("xr"), "tuple_key": any(isinstance(k, list) for k, _ in c["st"].get("dict", [])),
-            "int_internal": bool(c.get("func_int") or c.get("user_int")), "nfuncs": len(c["funcs"])}
+            "int_internal": bool(c.get("func_int") or c.get("user_int")), "nfuncs": len(c["funcs"]),
+            "edited": (c["mut"][0] + ":" + c["mut"][1]) if c.get("mut") else "no",
+            "internal_first": not _internal_after_mapped(c)}
 
 
 def finding_id(c, impl_obs, kind):
